@@ -17,4 +17,5 @@ def run(ck):
     replies.spec_auth_cache_expiry(ck)
     tlspolicy.spec_server_client_cert_policy(ck)
     tlspolicy.spec_client_trust_roots(ck)
+    tlspolicy.spec_client_verifier_policy(ck)
     ck.post_filter = lambda o: o.label.startswith('C07/') or o.status in ('undecided', 'vacuous', 'inconclusive')
